@@ -77,6 +77,9 @@ def world_to_real(w):
     r["P"] = w["P"] // Bs * REAL_B
     r["sizes"] = [to_real(s, Bs) for s in w["sizes"]]
     r["scale"] = "R"
+    for k in ("cids", "rootname"):
+        if k in w:
+            r[k] = w[k]
     r["from_S"] = {"B": Bs, "P": w["P"], "sizes": list(w["sizes"])}
     return r
 
